@@ -258,4 +258,7 @@ def run(ctx, rep):
     rep.floor('ordering obligations evaluated', n_ob, 10)
     report(d, rep, {k for k in RULES if k.startswith('C04')})
     phase(d, rep, 'C04.L')
+    from .c15 import key_rule
+    from ..interp import Program as _P
+    key_rule(ctx.lib, _P(ctx.lib), rep, 'C04.K')
     rep.count('leaks (request classes some API call can leave unsynced)', len([x for x in d.ustar if x[0] == 'U']))
